@@ -23,6 +23,17 @@ CHECKS = {
    note="The compression function is abstracted by an injective recording hash.Hash double (digest = bytes since last Reset), which makes the claim algorithm-independent; the real MD5/SHA/BLAKE2/xxhash/murmur code is not encoded.",
    technique="symbolic execution of go/ssa + SMT (QF_BV), native replay",
    design="5/C20"),
+
+ "C11": dict(
+   text="Bounded model checking of the real commonerrors constructors and (de)serialisation: for each of the 30 kinds, messages of 0..1 (thorough 2) fully symbolic bytes optionally followed by another kind's name, constructor chains of depth 1..2 (3), cancellation/deadline causes (plain and pre-converted), joins of 1..2 (3) errors: z3 decides that Any/errors.Is recognise the kind, that a context cause is never reclassified, that Deserialise(Serialise(e)) keeps the kind(s) and -- outside the recorded known-finding region (nested %w target) -- the reason up to whitespace around colons.",
+   note="fmt.Errorf/Sprintf and errors.Is/As are engine models that build the same *fmt.wrapError structures and call the interpreted Is/Unwrap/Error methods. The filesystem, I/O and process error converters are not covered by this check.",
+   technique="symbolic execution of go/ssa + SMT (QF_BV) over symbolic strings, native replay",
+   design="5/C11"),
+ "C14": dict(
+   text="Bounded model checking of BackOffPolicyFactory and the three Apply methods together with the real retryablehttp.DefaultBackoff/LinearJitterBackoff and the real avast/retry-go loop behind retry.RetryIf: min/max fully symbolic 64-bit durations in [0,1000h], attempt number symbolic in [0,2^31] (constant, exponential), all 16 flag configurations; the solver (cvc5, cross-checked with z3 in the thorough tier) decides wait >= 0, constant = min, exponential in [min,max] and monotonic (2-safety), linear in [(n+1)min,(n+1)max], Retry-After seconds over all of int64 honoured exactly iff enabled on 429/503; and, over every script of attempt outcomes, at most the configured attempts, none after success/non-retriable/cancellation, nil iff some attempt succeeded.",
+   note="Linear policy: attempt numbers and the jitter factor are explored value by value on a grid (symbolic float x symbolic 52-bit duration is not decided by any back end here). math.Pow(2,n) is built exactly from the exponent bits; the HTTP-date flavour of Retry-After and the retryable_client request loop are outside the claim.",
+   technique="symbolic execution of go/ssa + SMT (QF_BVFP, cvc5 with z3 cross-check), native replay",
+   design="5/C14"),
 }
 NA = {}
 def main():
